@@ -131,7 +131,8 @@ class _PyStruct:
                 raise ValueError("struct.pack: %r out of range for %d bytes" % (v, sz))
             bs = []
             for k in range(sz):
-                bs.append((v >> (8 * (sz - 1 - k))) & 0xFF)
+                # // and % instead of >> and & : stays linear integer arithmetic for symbolic v
+                bs.append((v // (1 << (8 * (sz - 1 - k)))) % 256)
             out += bytes(bs)
         return out
 
@@ -144,7 +145,7 @@ class _PyStruct:
         for sz in sizes:
             v = 0
             for k in range(sz):
-                v = (v << 8) | data[pos + k]
+                v = v * 256 + data[pos + k]
             pos += sz
             res.append(v)
         return tuple(res)
@@ -317,3 +318,150 @@ def pick(k, n):
         if k == i:
             return i
     return n - 1
+
+
+# ------------------------------------------------------------------------------------------ server-side rig
+# Real WebSocketHandler + real handshake (WebSocketHandler.get -> accept_connection) over a stand-in
+# HTTPConnection whose detach() hands out the FakeStream.
+import tornado.web as _web
+from tornado import httputil as _httputil
+from tornado.concurrent import Future as _Future
+
+
+class FixedTime:
+    """Stand-in for the `time` module inside tornado.web / tornado.httputil (CrossHair models time.time()
+    as a fresh symbolic float per call)."""
+
+    def __init__(self, now=1600000000):
+        self.now = now
+
+    def time(self):
+        return self.now
+
+    def __getattr__(self, k):
+        import time as _t
+        return getattr(_t, k)
+
+
+CLOCK = FixedTime()
+import logging as _logging
+_logging.disable(_logging.CRITICAL)      # no log records (LogRecord reads time.time(), symbolic under CrossHair)
+
+
+def fix_time():
+    _web.time = CLOCK
+    _httputil.time = CLOCK
+
+
+class FakeConn:
+    """HTTPConnection stand-in: records the response head, detach() returns the stream."""
+
+    def __init__(self, stream):
+        self.stream = stream
+        self.start_line = None
+        self.headers = None
+        self.body = b""
+        self.finished = False
+        self.detached = False
+        self.close_cb = None
+        self.context = None
+
+    def set_close_callback(self, cb):
+        self.close_cb = cb
+
+    def write_headers(self, start_line, headers, chunk=None):
+        self.start_line = start_line
+        self.headers = headers
+        if chunk:
+            self.body += chunk
+        f = _Future()
+        f.set_result(None)
+        return f
+
+    def write(self, chunk):
+        self.body += chunk
+        f = _Future()
+        f.set_result(None)
+        return f
+
+    def finish(self):
+        self.finished = True
+
+    def detach(self):
+        self.detached = True
+        self.close_cb = None
+        return self.stream
+
+
+class SrvHandler(W.WebSocketHandler):
+    """Application handler used by the harnesses: records every notification."""
+
+    def initialize(self, rec=None):
+        self.rec = rec
+
+    def open(self, *a, **kw):
+        self.rec.opened += 1
+
+    def on_message(self, m):
+        return self.rec.on_message(m)
+
+    def on_ping(self, d):
+        self.rec.pings.append(d)
+
+    def on_pong(self, d):
+        self.rec.pongs.append(d)
+
+    def on_close(self):
+        self.rec.closes.append((self.close_code, self.close_reason))
+
+    def get_compression_options(self):
+        return self.rec.comp_opts
+
+    def select_subprotocol(self, subprotocols):
+        self.rec.offered = list(subprotocols)
+        return self.rec.select
+
+    def log_exception(self, typ, value, tb):
+        self.rec.logged.append(value)
+
+
+class SrvRec(Rec):
+    def __init__(self):
+        Rec.__init__(self)
+        self.opened = 0
+        self.comp_opts = None
+        self.select = None
+        self.offered = None
+
+
+_APP = _web.Application([], websocket_ping_interval=None)
+
+
+def make_server(env, stream, headers, ping_interval=None, ping_timeout=None, max_message_size=None,
+                handler_cls=SrvHandler, rec=None):
+    """Builds the real handler for an upgrade request with `headers` (list of (name, value)), runs the real
+    RequestHandler._execute -> WebSocketHandler.get() to completion of the handshake.  Returns (handler, rec, conn, task)."""
+    fix_time()
+    rec = rec if rec is not None else SrvRec()
+    _APP.settings.pop("websocket_ping_interval", None)
+    _APP.settings.pop("websocket_ping_timeout", None)
+    _APP.settings.pop("websocket_max_message_size", None)
+    if ping_interval is not None:
+        _APP.settings["websocket_ping_interval"] = ping_interval
+    if ping_timeout is not None:
+        _APP.settings["websocket_ping_timeout"] = ping_timeout
+    if max_message_size is not None:
+        _APP.settings["websocket_max_message_size"] = max_message_size
+    conn = FakeConn(stream)
+    hh = _httputil.HTTPHeaders()
+    for k, v in headers:
+        hh.add(k, v)
+    req = _httputil.HTTPServerRequest(method="GET", uri="/ws", version="HTTP/1.1", headers=hh,
+                                      connection=conn)
+    handler = handler_cls(_APP, req, rec=rec)
+    task = env.spawn(handler._execute([]))
+    return handler, rec, conn, task
+
+
+GOOD_HEADERS = [("Host", "example.com"), ("Upgrade", "websocket"), ("Connection", "Upgrade"),
+                ("Sec-WebSocket-Key", "dGhlIHNhbXBsZSBub25jZQ=="), ("Sec-WebSocket-Version", "13")]
